@@ -62,7 +62,7 @@ def probe():
 def model(tier, rep):
     """MC of the oracle (three formats in parallel) + export of the binary32 boundary table."""
     def one(mode):
-        return mode, vlib.tlc_mc("Float.tla", "Float.cfg", "float_mc_%s_%s" % (mode, tier), workers=5, heap="3g",
+        return mode, vlib.tlc_mc("Float.tla", "Float.cfg", "float_mc_%s_%s" % (mode, tier), workers=8 if mode == "f32" else 4, heap="3g",
                                  constants={"Mode": '"%s"' % mode, "Tier": '"%s"' % tier}, env=JENV)
     with ThreadPoolExecutor(max_workers=3) as ex:
         res = dict(ex.map(one, ("toy1", "toy2", "f32")))
@@ -80,7 +80,7 @@ def model(tier, rep):
     return path, len(gen)
 
 
-def build_drivers(flags, ct=True, std=True, tag=""):
+def build_drivers(flags, ct=True, std=True, tag="", std_ct=False):
     jobs = [dict(src="float_driver.cpp", out="float_etl" + tag, flags=list(flags))]
     if std:
         jobs.append(dict(src="float_driver.cpp", out="float_std" + tag, flags=["-DVH_STD"], include_repo=False))
@@ -88,7 +88,7 @@ def build_drivers(flags, ct=True, std=True, tag=""):
         for g in range(CT_GROUPS):
             jobs.append(dict(src="float_driver.cpp", out="float_ct_etl%s_%d" % (tag, g), flags=list(flags) + ["-DVH_CT=%d" % g,
                              "-fconstexpr-ops-limit=200000000", "-fconstexpr-loop-limit=2000000", "-fconstexpr-depth=2048"], opt="-O0"))
-            if std:
+            if std and std_ct:
                 jobs.append(dict(src="float_driver.cpp", out="float_ct_std%s_%d" % (tag, g), flags=["-DVH_STD", "-DVH_CT=%d" % g],
                                  opt="-O0", include_repo=False))
     paths = vlib.build_many(jobs, par=8)
@@ -139,9 +139,9 @@ def split_traces(paths, out, groups):
     return [p for p in outs if os.path.getsize(p) > 0]
 
 
-def tv(paths, tag, par=8):
+def tv(paths, tag, par=6):
     with ThreadPoolExecutor(max_workers=par) as ex:
-        futs = [ex.submit(vlib.tlc_tv, "FloatTrace.tla", "FloatTrace.cfg", tp, "%s_%d" % (tag, i), "3g", 3600, JENV)
+        futs = [ex.submit(vlib.tlc_tv, "FloatTrace.tla", "FloatTrace.cfg", tp, "%s_%d" % (tag, i), "2g", 3600, JENV)
                 for i, tp in enumerate(paths)]
         res = [f.result() for f in futs]
     for tp, r in zip(paths, res):
@@ -190,17 +190,40 @@ def measure(paths, devlines):
 
 def pipeline(tier, rep, calibrate=True):
     flags, absent = probe()
-    table, ntab = model(tier, rep)
-    bins = build_drivers(flags, ct=True, std=calibrate)
+    std_ct = calibrate and tier == "thorough"      # the constant-evaluation harness itself is calibrated in the thorough tier
+    with ThreadPoolExecutor(max_workers=2) as ex:   # model checking and compilation do not depend on each other
+        f_model = ex.submit(model, tier, rep)
+        f_build = ex.submit(build_drivers, flags, True, calibrate, "", std_ct)
+        table, ntab = f_model.result()
+        bins = f_build.result()
     traces, n_inputs = execute(tier, bins, "etl", table)
-    groups = 8
+    groups = 6
     merged = split_traces(traces, os.path.join(vlib.workdir("traces"), "float_etl_merged"), groups)
-    r = tv(merged, "float_tv_etl")
+
+    def calibration():
+        ctr, _ = execute(tier, bins, "std", table, ct=std_ct)
+        cm = split_traces(ctr, os.path.join(vlib.workdir("traces"), "float_std_merged"), groups)
+        return tv(cm, "float_tv_std", par=groups)
+    with ThreadPoolExecutor(max_workers=2) as ex:
+        f_etl = ex.submit(tv, merged, "float_tv_etl", groups)
+        f_std = ex.submit(calibration) if calibrate else None
+        r = f_etl.result()
+        c = f_std.result() if f_std else None
+    if c is not None and c["deviations"]:
+        d = c["deviations"][0]
+        raise vlib.ModelFailure("calibration: glibc/libstdc++ deviates from FloatOps (spec/projection error): %s %s expected %s"
+                                % (d["kind"], json.dumps(d.get("ev"))[:400], d.get("expected")))
     rep.add_tv("Float", r, len(traces), "float")
     m = rep.cov["modules"]["Float"]
+    with open(merged[0]) as f:
+        lines = f.readlines()
+        for i in (len(lines) // 7, len(lines) // 2, len(lines) - 5):
+            rep.sample({"module": "Float", "event": json.loads(lines[i])})
     m["not_drivable"] = ["etl::%s is not declared" % n for n in absent]
     m["boundary_table_values"] = ntab
     m["inputs_executed"] = n_inputs
+    if c is not None:
+        m["calibration_events_std"] = c["events"]
     # measured maxima among the events the trace spec accepted (a note in the evidence, never a verdict)
     devlines = {}
     byfn = {}
@@ -211,15 +234,6 @@ def pipeline(tier, rep, calibrate=True):
         byfn[k] = byfn.get(k, 0) + 1
     m["max_ulp_distance_accepted"] = dict(sorted(measure(merged, devlines).items()))
     m["deviations_by_function"] = dict(sorted(byfn.items()))
-    if calibrate:
-        ctr, _ = execute(tier, bins, "std", table)
-        cm = split_traces(ctr, os.path.join(vlib.workdir("traces"), "float_std_merged"), groups)
-        c = tv(cm, "float_tv_std")
-        if c["deviations"]:
-            d = c["deviations"][0]
-            raise vlib.ModelFailure("calibration: glibc/libstdc++ deviates from FloatOps (spec/projection error): %s %s expected %s"
-                                    % (d["kind"], json.dumps(d.get("ev"))[:400], d.get("expected")))
-        m["calibration_events_std"] = c["events"]
     return r
 
 
